@@ -78,8 +78,111 @@ def _shift_term(t, loff, boff, ret_local, dest, target):
     return t
 
 
-def inline_once(body, bi, callee):
-    """inline the call terminating block `bi` of `body` (a Body) with `callee` (a Body); returns new Body"""
+def _captures(j, clo_local):
+    """capture k of the closure literal assigned to clo_local -> (base place of the captured variable, by_ref)"""
+    lit = None
+    refs = {}
+    for blk in j['blocks']:
+        if blk['cleanup']:
+            continue
+        for st in blk['stmts']:
+            if st['k'] != 'assign' or st['place']['p']:
+                continue
+            if st['rv']['k'] == 'ref':
+                refs.setdefault(st['place']['l'], []).append(st['rv']['place'])
+            if st['place']['l'] == clo_local and st['rv']['k'] == 'agg' and st['rv'].get('agg') == 'closure':
+                lit = st['rv'] if lit is None else False
+    if not lit:
+        return {}
+    out = {}
+    for k, f in enumerate(lit['fields']):
+        pl = f.get('move') or f.get('copy')
+        if pl is None or pl['p']:
+            continue
+        if len(refs.get(pl['l'], [])) == 1 and all(e == 'deref' or isinstance(e, dict) for e in refs[pl['l']][0]['p']):
+            out[k] = (refs[pl['l']][0], True)       # captured by reference: `&[mut] place`
+        elif pl['l'] not in refs:
+            out[k] = ({'l': pl['l'], 'p': []}, False)    # captured by value
+    return out
+
+
+def _promote_upvars(j, first_block, env_local, caps):
+    """inside the inlined closure body (blocks >= first_block) rewrite the captured-variable places `(*(*env).k)` /
+    `(*env).k` to the captured variable itself, so that reads and writes through the closure environment are reads and
+    writes of the parent's variable"""
+    def fix(pl):
+        if pl is None or pl['l'] != env_local:
+            return pl
+        p = list(pl['p'])
+        if p and p[0] == 'deref':
+            p = p[1:]
+        if not p or not isinstance(p[0], dict) or 'f' not in p[0] or p[0]['f'] not in caps:
+            return pl
+        base, by_ref = caps[p[0]['f']]
+        rest = p[1:]
+        if by_ref:
+            if not rest or rest[0] != 'deref':
+                return pl           # the reference itself is used (passed on): leave it
+            rest = rest[1:]
+        return {'l': base['l'], 'p': list(base['p']) + rest}
+
+    def fix_op(o):
+        if 'copy' in o:
+            return {'copy': fix(o['copy'])}
+        if 'move' in o:
+            return {'move': fix(o['move'])}
+        return o
+    for blk in j['blocks'][first_block:]:
+        for st in blk['stmts']:
+            if st['k'] != 'assign':
+                continue
+            st['place'] = fix(st['place'])
+            rv = st['rv']
+            k = rv['k']
+            if k == 'use':
+                # `tmp = (*env).k` for a by-reference capture copies the captured reference: it is `&[mut] variable`
+                opl = rv['op'].get('copy') or rv['op'].get('move')
+                if opl is not None and opl['l'] == env_local:
+                    p = list(opl['p'])
+                    if p and p[0] == 'deref':
+                        p = p[1:]
+                    if len(p) == 1 and isinstance(p[0], dict) and p[0].get('f') in caps and caps[p[0]['f']][1]:
+                        base = caps[p[0]['f']][0]
+                        tmp = st['place']['l']
+                        # mutable only if the copied reference is re-borrowed mutably afterwards
+                        mut = False
+                        for blk2 in j['blocks'][first_block:]:
+                            for st2 in blk2['stmts']:
+                                if st2['k'] == 'assign' and st2['rv']['k'] in ('ref', 'rawptr') and st2['rv'].get('mut') and \
+                                        st2['rv']['place']['l'] == tmp:
+                                    mut = True
+                        st['rv'] = {'k': 'ref', 'mut': mut, 'place': {'l': base['l'], 'p': list(base['p'])}}
+                        continue
+            if k in ('use', 'cast', 'repeat'):
+                rv['op'] = fix_op(rv['op'])
+            elif k in ('ref', 'rawptr', 'discr'):
+                rv['place'] = fix(rv['place'])
+            elif k == 'binop':
+                rv['a'], rv['b'] = fix_op(rv['a']), fix_op(rv['b'])
+            elif k == 'unop':
+                rv['a'] = fix_op(rv['a'])
+            elif k == 'agg':
+                rv['fields'] = [fix_op(f) for f in rv['fields']]
+        t = blk['term']
+        if t['k'] == 'call':
+            t['args'] = [fix_op(a) for a in t['args']]
+            t['dest'] = fix(t['dest'])
+        elif t['k'] == 'switch':
+            t['discr'] = fix_op(t['discr'])
+        elif t['k'] == 'drop':
+            t['place'] = fix(t['place'])
+        elif t['k'] == 'assert':
+            t['cond'] = fix_op(t['cond'])
+
+
+def inline_once(body, bi, callee, closure_local=None):
+    """inline the call terminating block `bi` of `body` (a Body) with `callee` (a Body); returns new Body.
+    closure_local: the local holding the closure literal when `callee` is a closure body called through `&[mut] closure`"""
     j = copy.deepcopy(body.j)
     cj = callee.j
     t = j['blocks'][bi]['term']
@@ -121,6 +224,10 @@ def inline_once(body, bi, callee):
             nt = {'k': 'goto', 'target': target} if target is not None else {'k': 'unreachable'}
         nb['term'] = nt
         j['blocks'].append(nb)
+    if closure_local is not None and callee.kind == 'Closure':
+        caps = _captures(j, closure_local)
+        if caps:
+            _promote_upvars(j, boff, loff + 1, caps)
     nbdy = Body(j, body.crate)
     return nbdy
 
@@ -263,7 +370,7 @@ def desugar_once(body, bi, cb, kind):
         j['blocks'].append(blk([{'k': 'assign', 'place': dest, 'rv': {'k': 'use', 'op': cbool(kind != 'all')}, 'span': span}],
                                {'k': 'goto', 'target': target}))
     nb = Body(j, body.crate)
-    return inline_once(nb, n_call, cb)
+    return inline_once(nb, n_call, cb, closure_local=clo_local)
 
 
 def desugar_fold(body, bi, cb):
@@ -318,10 +425,125 @@ def desugar_fold(body, bi, cb):
     j['blocks'].append(blk([{'k': 'assign', 'place': dest, 'rv': {'k': 'use', 'op': {'move': {'l': acc, 'p': []}}}, 'span': span}],
                            {'k': 'goto', 'target': target}))
     nb = Body(j, body.crate)
-    return inline_once(nb, n_call, cb)
+    return inline_once(nb, n_call, cb, closure_local=clo_local)
 
 
-def desugar_adaptors(body, crate, max_rounds=8):
+FN_CALLS = ('std::ops::Fn::call', 'std::ops::FnMut::call_mut', 'std::ops::FnOnce::call_once')
+
+
+def inline_closure_call(body, bi, crate):
+    """`f(a, b)` on a local closure `f` (MIR: Fn::call(&f, (a, b))): the closure body is inlined with the tuple untupled"""
+    t = body.blocks[bi]['term']
+    a0 = t['args'][0].get('move') or t['args'][0].get('copy')
+    if a0 is None or a0['p']:
+        return None
+    # the callee: the closure local itself or a reference to it taken in this block
+    clo_local = a0['l']
+    by_ref = False
+    for st in body.blocks[bi]['stmts']:
+        if st['k'] == 'assign' and st['place']['l'] == a0['l'] and not st['place']['p'] and st['rv']['k'] == 'ref' and not st['rv']['place']['p']:
+            clo_local = st['rv']['place']['l']
+            by_ref = True
+    path = _closure_of(body, clo_local)
+    cb = crate.body(path) if path else None
+    if cb is None:
+        return None
+    # the argument tuple
+    a1 = t['args'][1].get('move') or t['args'][1].get('copy') if len(t['args']) > 1 else None
+    fields = None
+    if a1 is not None and not a1['p']:
+        for blk in body.blocks:
+            for st in blk['stmts']:
+                if st['k'] == 'assign' and st['place']['l'] == a1['l'] and not st['place']['p'] and st['rv']['k'] == 'agg' and st['rv'].get('agg') == 'tuple':
+                    fields = st['rv']['fields'] if fields is None else False
+    elif len(t['args']) > 1 and 'const' in t['args'][1]:
+        fields = []
+    if fields is None or fields is False or len(fields) != cb.arg_count - 1:
+        return None
+    j = copy.deepcopy(body.j)
+    env_ty = cb.locals[1]['ty']
+    tt = j['blocks'][bi]['term']
+    if env_ty.startswith('&') and not by_ref:
+        # closure passed by value where the body expects a reference: take one
+        j['locals'].append({'ty': env_ty, 'name': None, 'mut': True})
+        env = len(j['locals']) - 1
+        j['blocks'][bi]['stmts'].append({'k': 'assign', 'place': {'l': env, 'p': []},
+                                         'rv': {'k': 'ref', 'mut': env_ty.startswith('&mut'), 'place': {'l': clo_local, 'p': []}},
+                                         'span': j['blocks'][bi]['tspan']})
+        arg0 = {'move': {'l': env, 'p': []}}
+    else:
+        arg0 = tt['args'][0]
+    tt['args'] = [arg0] + [copy.deepcopy(f) for f in fields]
+    tt['func'] = {'path': cb.path, 'full': cb.path, 'name': 'call', 'gargs': []}
+    nb = Body(j, body.crate)
+    return inline_once(nb, bi, cb, closure_local=clo_local), path
+
+
+MAPS = {'std::result::Result::<T, E>::map': ('std::result::Result', 'Ok', 0, 'Err', 1),
+        'std::option::Option::<T>::map': ('std::option::Option', 'Some', 1, 'None', 0)}
+
+
+def desugar_map(body, bi, cb, spec):
+    """x.map(|v| F(v))  ==  match x { Ok(v) => Ok(F(v)), Err(e) => Err(e) }   (Option alike)"""
+    adt, keep, keep_idx, other, other_idx = spec
+    j = copy.deepcopy(body.j)
+    t = j['blocks'][bi]['term']
+    span = j['blocks'][bi]['tspan']
+    target, dest = t['target'], t['dest']
+    a_x, a_clo = t['args'][0], t['args'][1]
+    clo_local = (a_clo.get('move') or a_clo.get('copy'))['l']
+    env_ty, v_ty = cb.locals[1]['ty'], cb.locals[2]['ty']
+
+    def new_local(ty):
+        j['locals'].append({'ty': ty, 'name': None, 'mut': True})
+        return len(j['locals']) - 1
+
+    def assign(l, rv):
+        return {'k': 'assign', 'place': {'l': l, 'p': []}, 'rv': rv, 'span': span}
+
+    def blk(stmts, term):
+        j['blocks'].append({'stmts': stmts, 'term': term, 'tspan': span, 'cleanup': False})
+        return len(j['blocks']) - 1
+    xp = a_x.get('move') or a_x.get('copy')
+    if xp is not None and not xp['p']:
+        x = xp['l']
+    else:
+        x = new_local(adt)
+        j['blocks'][bi]['stmts'].append(assign(x, {'k': 'use', 'op': a_x}))
+    d = new_local('isize')
+    v = new_local(v_ty)
+    env = new_local(env_ty)
+    r = new_local(cb.j.get('ret_ty') or 'unknown')
+    j['blocks'][bi]['stmts'].append(assign(d, {'k': 'discr', 'place': {'l': x, 'p': []}}))
+    n0 = len(j['blocks'])
+    n_keep, n_wrap, n_other = n0, n0 + 1, n0 + 2
+    j['blocks'][bi]['term'] = {'k': 'switch', 'discr': {'move': {'l': d, 'p': []}}, 'targets': [[str(keep_idx), n_keep], [str(other_idx), n_other]], 'otherwise': n_other}
+    payload = {'l': x, 'p': [{'down': keep_idx, 'name': keep}, {'f': 0, 'name': '0', 'ty': v_ty}]}
+    if env_ty.startswith('&'):
+        env_rv = {'k': 'ref', 'mut': env_ty.startswith('&mut'), 'place': {'l': clo_local, 'p': []}}
+    else:
+        env_rv = {'k': 'use', 'op': {'move': {'l': clo_local, 'p': []}}}
+    blk([assign(v, {'k': 'use', 'op': {'move': payload}}), assign(env, env_rv)],
+        {'k': 'call', 'func': {'path': cb.path, 'full': cb.path, 'name': 'call', 'gargs': []},
+         'args': [{'move': {'l': env, 'p': []}}, {'move': {'l': v, 'p': []}}], 'dest': {'l': r, 'p': []}, 'target': n_wrap, 'unwind': None})
+    blk([{'k': 'assign', 'place': dest, 'rv': {'k': 'agg', 'agg': 'adt', 'adt': adt, 'variant': keep_idx, 'variant_name': keep,
+                                              'field_names': ['0'], 'fields': [{'move': {'l': r, 'p': []}}]}, 'span': span}],
+        {'k': 'goto', 'target': target})
+    if other == 'None':
+        other_rv = {'k': 'agg', 'agg': 'adt', 'adt': adt, 'variant': other_idx, 'variant_name': other, 'field_names': [], 'fields': []}
+        blk([{'k': 'assign', 'place': dest, 'rv': other_rv, 'span': span}], {'k': 'goto', 'target': target})
+    else:
+        e = new_local('unknown')
+        ep = {'l': x, 'p': [{'down': other_idx, 'name': other}, {'f': 0, 'name': '0', 'ty': 'unknown'}]}
+        other_rv = {'k': 'agg', 'agg': 'adt', 'adt': adt, 'variant': other_idx, 'variant_name': other, 'field_names': ['0'],
+                    'fields': [{'move': {'l': e, 'p': []}}]}
+        blk([assign(e, {'k': 'use', 'op': {'move': ep}}), {'k': 'assign', 'place': dest, 'rv': other_rv, 'span': span}],
+            {'k': 'goto', 'target': target})
+    nb = Body(j, body.crate)
+    return inline_once(nb, n_keep, cb, closure_local=clo_local if env_ty.startswith('&') else None)
+
+
+def desugar_adaptors(body, crate, max_rounds=16):
     cur = body
     used = set()
     for _ in range(max_rounds):
@@ -333,6 +555,24 @@ def desugar_adaptors(body, crate, max_rounds=8):
                 cb = crate.body(path) if path else None
                 if cb is not None and cb.arg_count == 3:
                     cur = desugar_fold(cur, bi, cb)
+                    used.add(path)
+                    did = True
+                    break
+                continue
+            if t['func'].get('path') in FN_CALLS and t['target'] is not None and len(t['args']) == 2:
+                res = inline_closure_call(cur, bi, crate)
+                if res is not None:
+                    cur, cpath = res
+                    used.add(cpath)
+                    did = True
+                    break
+                continue
+            if t['func'].get('path') in MAPS and len(t['args']) == 2 and t['target'] is not None:
+                cp = t['args'][1].get('move') or t['args'][1].get('copy')
+                path = _closure_of(cur, cp['l']) if cp is not None and not cp['p'] else None
+                cb = crate.body(path) if path else None
+                if cb is not None and cb.arg_count == 2:
+                    cur = desugar_map(cur, bi, cb, MAPS[t['func']['path']])
                     used.add(path)
                     did = True
                     break
@@ -455,6 +695,54 @@ def find_decision_join(fn, skip=frozenset()):
     return None
 
 
+def find_literal_merge(fn, skip=frozenset()):
+    """(join block, [pred blocks]) where one variable arrives with a different literal enum variant (Ok(..), Err(..), Some(..),
+    None, a field-less variant) from different predecessors and its discriminant is tested further on:
+    `let outcome = loop { .. break Err(Timeout) .. break Ok(i) }; ..; outcome.map(..)` """
+    pred = fn.b.preds()
+    reach = fn.reachable(0)
+    # candidate variables: assigned literal variants at two or more places
+    lit_defs = {}
+    for b in reach:
+        if fn.blocks[b]['cleanup']:
+            continue
+        for si, st in enumerate(fn.blocks[b]['stmts']):
+            if st['k'] == 'assign' and not st['place']['p'] and st['rv']['k'] == 'agg' and st['rv'].get('agg') == 'adt' and 'variant' in st['rv']:
+                lit_defs.setdefault(st['place']['l'], []).append((b, si))
+    cands = [x for x, ds in lit_defs.items() if len(ds) >= 2]
+    for X in sorted(cands):
+        # its discriminant (or that of a plain copy) is read somewhere
+        alias = {X}
+        for _ in range(2):
+            for b in reach:
+                for st in fn.blocks[b]['stmts']:
+                    if st['k'] == 'assign' and not st['place']['p'] and st['rv']['k'] == 'use':
+                        src = st['rv']['op'].get('move') or st['rv']['op'].get('copy')
+                        if src is not None and not src['p'] and src['l'] in alias:
+                            alias.add(st['place']['l'])
+        used = any(st['k'] == 'assign' and st['rv']['k'] == 'discr' and st['rv']['place']['l'] in alias and not st['rv']['place']['p']
+                   for b in reach for st in fn.blocks[b]['stmts'])
+        if not used:
+            continue
+        for J in sorted(reach):
+            if J in skip or fn.blocks[J]['cleanup']:
+                continue
+            ps = [p for p in pred[J] if p in reach and not fn.blocks[p]['cleanup']]
+            if len(ps) < 2 or len(ps) > 6:
+                continue
+            per = []
+            ok = True
+            for p in ps:
+                evs, entry = fn.reaching(X, (p, fn.nstmts(p)), (), True, whole_only=True)
+                if entry or len(evs) != 1 or (evs[0].block, evs[0].idx) not in lit_defs[X]:
+                    ok = False
+                    break
+                per.append((evs[0].block, evs[0].idx))
+            if ok and len(set(per)) >= 2:
+                return J, ps
+    return None
+
+
 def split_decisions(body, max_splits=2, max_blocks=2500):
     from .engine import Fn
     cur = body
@@ -464,7 +752,28 @@ def split_decisions(body, max_splits=2, max_blocks=2500):
         fn = Fn(cur)
         hit = find_decision_join(fn, frozenset(skip))
         if hit is None:
-            break
+            lm = find_literal_merge(fn, frozenset(skip))
+            if lm is None:
+                break
+            J, ps = lm
+            heads = frozenset(l['header'] for l in fn.loops() if J in l['body'])
+            region = {x for x in fn.reachable(J, stop=heads) if x not in heads and not fn.blocks[x]['cleanup']}
+            if len(cur.blocks) + len(region) * (len(ps) - 1) > max_blocks:
+                break
+            j = copy.deepcopy(cur.j)
+            for p in ps[1:]:
+                base = len(j['blocks'])
+                order = sorted(region)
+                m = {x: base + k for k, x in enumerate(order)}
+                for x in order:
+                    nb = copy.deepcopy(j['blocks'][x])
+                    nb['term'] = _remap_term(nb['term'], m)
+                    j['blocks'].append(nb)
+                j['blocks'][p]['term'] = _retarget(j['blocks'][p]['term'], J, m[J])
+            cur = fold_constant_switches(Body(j, body.crate))
+            nsplit += 1
+            skip.add(J)
+            continue
         J, ps, L = hit
         H = L['header']
         # the rest of the iteration and the exit tails that leave the loop from it (e.g. `return Ok(..)` paths), up to the
@@ -614,7 +923,10 @@ def fold_constant_switches(body, known=(), rounds=6):
                 val = n[1]
             elif n[0] == 'discr' and len(n[1]) == 1:
                 a = next(iter(n[1]))
-                if a[0] == 'agg':
+                if a[0] == 'agg' and a[1] in ('std::result::Result', 'std::option::Option', 'core::result::Result', 'core::option::Option') and \
+                        a[2] in ('Ok', 'Err', 'None', 'Some'):
+                    val = {'Ok': '0', 'Err': '1', 'None': '0', 'Some': '1'}[a[2]]
+                elif a[0] == 'agg':
                     adt = cur.crate.adts.get(a[1])
                     if adt is not None and adt.get('is_enum'):
                         names = [v['name'] for v in adt['variants']]
@@ -705,4 +1017,245 @@ def thread_jumps(body, rounds=4):
         did_any = True
     if did_any:
         cur.inlined_from = set(getattr(body, 'inlined_from', set())) | {'jump-threading:%s' % body.path}
+    return cur
+
+
+# ------------------------------------------------------------------------------------------------------------------
+# full unrolling of `for slot in fixed_array.iter_mut() { *slot = e }` over a small constant-length array
+import re as _re
+
+_ARR = _re.compile(r'^\[(f64|f32); (\d+)\]$')
+
+
+def _mentions(x, local):
+    """number of places with base local `local` (and index operands equal to it) inside a JSON fragment"""
+    n = 0
+    if isinstance(x, dict):
+        if 'l' in x and 'p' in x and isinstance(x['p'], list):
+            if x['l'] == local:
+                n += 1
+            for e in x['p']:
+                if isinstance(e, dict) and e.get('idx') == local:
+                    n += 1
+            return n
+        for k, v in x.items():
+            if k in ('span', 'tspan', 'fn_span', 'func'):
+                continue
+            n += _mentions(v, local)
+    elif isinstance(x, list):
+        for v in x:
+            n += _mentions(v, local)
+    return n
+
+
+def _plain_local(op):
+    pl = op.get('move') or op.get('copy') if isinstance(op, dict) else None
+    if pl is None or pl['p']:
+        return None
+    return pl['l']
+
+
+def _find_array_fill(body):
+    blocks = body.blocks
+    for A, loc in enumerate(body.locals):
+        m = _ARR.match(loc.get('ty') or '')
+        if not m or int(m.group(2)) > 8 or int(m.group(2)) < 1:
+            continue
+        N = int(m.group(2))
+        inits, refs, reads, other = [], [], 0, 0
+        for bi, blk in enumerate(blocks):
+            for si, st in enumerate(blk['stmts']):
+                c = _mentions(st, A)
+                if not c:
+                    continue
+                if st['k'] != 'assign':
+                    continue            # storage markers
+                if st['place'] == {'l': A, 'p': []} and st['rv']['k'] == 'repeat' and _mentions(st['rv'], A) == 0:
+                    inits.append((bi, si))
+                elif st['rv']['k'] == 'ref' and st['rv'].get('mut') and st['rv']['place'] == {'l': A, 'p': []} and c == 1:
+                    refs.append((bi, si))
+                elif st['rv']['k'] == 'use' and c == 1 and _cidx_read(st['rv']['op'], A) is not None and _mentions(st['place'], A) == 0:
+                    reads += 1
+                else:
+                    other += 1
+            other += _mentions(blk['term'], A)
+        if len(inits) != 1 or len(refs) != 1 or other or not reads:
+            continue
+        b0, s0 = refs[0]
+        blk0 = blocks[b0]
+        if blk0['cleanup'] or s0 + 1 >= len(blk0['stmts']):
+            continue
+        r1 = blk0['stmts'][s0]['place']
+        cast = blk0['stmts'][s0 + 1]
+        t0 = blk0['term']
+        if r1['p'] or cast['k'] != 'assign' or cast['rv']['k'] != 'cast' or 'Unsize' not in cast['rv'].get('cast', '') or \
+                _plain_local(cast['rv']['op']) != r1['l'] or cast['place']['p'] or s0 + 2 != len(blk0['stmts']):
+            continue
+        if t0['k'] != 'call' or not t0['func'].get('path', '').endswith('::iter_mut') or len(t0['args']) != 1 or \
+                _plain_local(t0['args'][0]) != cast['place']['l'] or t0['dest']['p'] or t0['target'] is None:
+            continue
+        b1 = t0['target']
+        t1 = blocks[b1]['term']
+        if blocks[b1]['stmts'] or t1['k'] != 'call' or t1['func'].get('path') != 'std::iter::IntoIterator::into_iter' or \
+                _plain_local(t1['args'][0]) != t0['dest']['l'] or t1['dest']['p'] or t1['target'] is None:
+            continue
+        b2 = t1['target']
+        st2 = [s for s in blocks[b2]['stmts'] if s['k'] == 'assign']
+        if len(st2) != 1 or st2[0]['rv']['k'] != 'use' or _plain_local(st2[0]['rv']['op']) != t1['dest']['l'] or st2[0]['place']['p'] or \
+                blocks[b2]['term']['k'] != 'goto':
+            continue
+        it = st2[0]['place']['l']
+        H = blocks[b2]['term']['target']
+        th = blocks[H]['term']
+        if th['k'] != 'call' or th['func'].get('path') != 'std::iter::Iterator::next' or th['dest']['p'] or th['target'] is None:
+            continue
+        # the iterator is used by the head block only
+        uses_it = sum(_mentions(blk, it) for i, blk in enumerate(blocks) if i not in (b2, H) and not blk['cleanup'])
+        if uses_it:
+            continue
+        S = th['target']
+        ts = blocks[S]['term']
+        if ts['k'] != 'switch' or len(blocks[S]['stmts']) != 1 or blocks[S]['stmts'][0]['rv'].get('k') != 'discr' or \
+                blocks[S]['stmts'][0]['rv']['place'] != {'l': th['dest']['l'], 'p': []}:
+            continue
+        tm = {str(v): tg for v, tg in ts['targets']}
+        if '0' not in tm or '1' not in tm:
+            continue
+        E, Bd = tm['0'], tm['1']
+        first = blocks[Bd]['stmts'][0] if blocks[Bd]['stmts'] else None
+        if first is None or first['k'] != 'assign' or first['place']['p'] or first['rv']['k'] != 'use':
+            continue
+        src = first['rv']['op'].get('move')
+        if src is None or src['l'] != th['dest']['l'] or len(src['p']) != 2 or 'down' not in src['p'][0]:
+            continue
+        p = first['place']['l']
+        # the loop body: blocks reachable from Bd without passing the head; every edge stays inside or returns to the head
+        bodyset, todo, ok = set(), [Bd], True
+        while todo and ok:
+            x = todo.pop()
+            if x in bodyset:
+                continue
+            bodyset.add(x)
+            if blocks[x]['term']['k'] in ('return', 'other'):
+                ok = False
+            for s in body.succs(x):
+                if s == H:
+                    continue
+                if s in (S, b0, b1, b2, E):
+                    ok = False
+                todo.append(s)
+        if not ok or len(bodyset) > 40:
+            continue
+        # head and switch are entered from the set-up and the loop body only
+        preds = body.preds()
+        if any(q not in bodyset and q != b2 for q in preds.get(H, [])) or preds.get(S, []) != [H] or \
+                any(q != S and q not in bodyset for q in preds.get(Bd, [])) or any(q in bodyset for q in preds.get(Bd, [])):
+            continue
+        stores, uses_p = [], 0
+        for x in bodyset:
+            for si, st in enumerate(blocks[x]['stmts']):
+                c = _mentions(st, p)
+                if not c or (x == Bd and si == 0):
+                    continue
+                if st['k'] == 'assign' and st['place'] == {'l': p, 'p': ['deref']} and _mentions(st['rv'], p) == 0:
+                    stores.append((x, si))
+                elif st['k'] == 'assign':
+                    uses_p += 1
+            uses_p += _mentions(blocks[x]['term'], p)
+        outside_p = sum(_mentions(blk, p) for i, blk in enumerate(blocks) if i not in bodyset and not blk['cleanup'])
+        if len(stores) != 1 or uses_p or outside_p:
+            continue
+        return {'A': A, 'N': N, 'ety': m.group(1), 'init': inits[0], 'b0': b0, 's0': s0, 'E': E, 'Bd': Bd, 'H': H, 'body': sorted(bodyset),
+                'p': p, 'store': stores[0]}
+    return None
+
+
+def blocks_switch(body, H):
+    return body.blocks[H]['term']['target']
+
+
+def _cidx_read(op, A):
+    pl = op.get('copy') or op.get('move') if isinstance(op, dict) else None
+    if pl is None or pl['l'] != A or len(pl['p']) != 1 or not isinstance(pl['p'][0], dict) or 'cidx' not in pl['p'][0] or \
+            pl['p'][0].get('from_end'):
+        return None
+    return pl['p'][0]['cidx']
+
+
+def unroll_array_fills(body, max_rounds=4):
+    """`let mut a = [c; N]; for slot in a.iter_mut() { *slot = e; }` with N <= 8 and `a` otherwise only read at constant
+    indices: the array becomes N scalars and the loop N copies of its body (the k-th evaluation of `e` is the value of
+    a[k]); rules then see N separate evaluation sites, as if the elements had been written out one by one"""
+    cur = body
+    did = False
+    for _ in range(max_rounds):
+        f = _find_array_fill(cur)
+        if f is None:
+            break
+        j = copy.deepcopy(cur.j)
+        A, N = f['A'], f['N']
+        scal = []
+        for k in range(N):
+            j['locals'].append({'ty': f['ety'], 'name': '%s_%d' % (cur.locals[A].get('name') or 'elem', k), 'mut': True})
+            scal.append(len(j['locals']) - 1)
+        # reads a[k] -> a_k
+        def rewrite(x):
+            if isinstance(x, dict):
+                for key in ('copy', 'move'):
+                    if key in x and isinstance(x[key], dict) and _cidx_read({key: x[key]}, A) is not None:
+                        x[key] = {'l': scal[_cidx_read({key: x[key]}, A)], 'p': []}
+                        return
+                for v in x.values():
+                    rewrite(v)
+            elif isinstance(x, list):
+                for v in x:
+                    rewrite(v)
+        for blk in j['blocks']:
+            for st in blk['stmts']:
+                if st['k'] == 'assign':
+                    rewrite(st['rv'])
+            rewrite(blk['term'].get('args', []))
+            if blk['term']['k'] == 'switch':
+                rewrite(blk['term'])
+        # initialisation
+        bi, si = f['init']
+        init = j['blocks'][bi]['stmts'][si]
+        extra = [{'k': 'assign', 'place': {'l': s, 'p': []}, 'rv': {'k': 'use', 'op': copy.deepcopy(init['rv']['op'])}, 'span': init['span']}
+                 for s in scal]
+        j['blocks'][bi]['stmts'][si + 1:si + 1] = extra
+        shift = len(extra) if bi == f['b0'] and si < f['s0'] else 0
+        # N copies of the loop body
+        nb0 = len(j['blocks'])
+        nbody = len(f['body'])
+        pos = {b: i for i, b in enumerate(f['body'])}
+        for k in range(N):
+            base = nb0 + k * nbody
+            nxt = (nb0 + (k + 1) * nbody + pos[f['Bd']]) if k + 1 < N else f['E']
+            m = {b: base + pos[b] for b in f['body']}
+            m[f['H']] = nxt
+            for b in f['body']:
+                nblk = copy.deepcopy(cur.j['blocks'][b])
+                for st in nblk['stmts']:
+                    if st['k'] == 'assign':
+                        rewrite(st['rv'])
+                rewrite(nblk['term'].get('args', []))
+                if b == f['store'][0]:
+                    nblk['stmts'][f['store'][1]]['place'] = {'l': scal[k], 'p': []}
+                if b == f['Bd']:
+                    nblk['stmts'] = nblk['stmts'][1:] if f['store'] != (b, 0) else nblk['stmts']
+                nblk['term'] = _remap_term(nblk['term'], m)
+                j['blocks'].append(nblk)
+        # the set-up block jumps straight into the first copy
+        blk0 = j['blocks'][f['b0']]
+        blk0['stmts'] = blk0['stmts'][:f['s0'] + shift]
+        blk0['term'] = {'k': 'goto', 'target': nb0 + pos[f['Bd']]}
+        # the rolled loop is dead now
+        dead = set(f['body']) | {f['H'], blocks_switch(cur, f['H'])}
+        for b in dead:
+            j['blocks'][b]['stmts'] = []
+            j['blocks'][b]['term'] = {'k': 'unreachable'}
+        cur = Body(j, body.crate)
+        did = True
+    if did:
+        cur.inlined_from = set(getattr(body, 'inlined_from', set())) | {'unroll@%s' % body.path}
     return cur
